@@ -36,18 +36,41 @@ use rand::{Rng, SeedableRng};
 use xet_threadpool::ThreadPool;
 
 const BASE_ENV: [(&str, &str); 3] = [("HF_XET_TARGET_CHUNK_SIZE", "8192"), ("HF_XET_MAX_XORB_BYTES", "40960"), ("HF_XET_MAX_XORB_CHUNKS", "8")];
-const CONFIGS: [(&str, &[(&str, &str)]); 3] = [
-    ("A: 8 KiB chunks, xorbs of 40,960 bytes / 8 chunks", &[]),
-    ("B: as A, minimum shard size 4096 bytes (several shards per session)", &[("HF_XET_MDB_SHARD_MIN_TARGET_SIZE", "4096")]),
+#[derive(Clone, Copy, PartialEq, Debug)]
+enum Kind {
+    /// the original histories (all of them / the reduced set)
+    Full,
+    Reduced,
+    /// 48 concurrently cleaned files
+    Concurrent,
+    /// coverage-review histories against the local store (small files, further fault points, entry points, live sessions side by side)
+    Extra(usize),
+    /// HTTP store whose accepted objects are mirrored into a directory with the local store's layout (so that downloads can be checked)
+    Http,
+    /// HF_XET_MAX_CONCURRENT_UPLOADS = 1 / 64
+    Serial,
+    Wide,
+}
+const CONFIGS: [(&str, &[(&str, &str)], Kind); 10] = [
+    ("A: 8 KiB chunks, xorbs of 40,960 bytes / 8 chunks", &[], Kind::Full),
+    ("B: as A, minimum shard size 4096 bytes (several shards per session)", &[("HF_XET_MDB_SHARD_MIN_TARGET_SIZE", "4096")], Kind::Reduced),
     // the session shard is flushed to disk every ~1 kB of records while many files are cleaned concurrently
-    ("C: 1 KiB chunks, xorbs of 8192 bytes / 64 chunks, minimum shard size 1024 bytes; 48 files cleaned concurrently", &[("HF_XET_TARGET_CHUNK_SIZE", "1024"), ("HF_XET_MAX_XORB_BYTES", "8192"), ("HF_XET_MAX_XORB_CHUNKS", "64"), ("HF_XET_MDB_SHARD_MIN_TARGET_SIZE", "1024")]),
+    ("C: 1 KiB chunks, xorbs of 8192 bytes / 64 chunks, minimum shard size 1024 bytes; 48 files cleaned concurrently", &[("HF_XET_TARGET_CHUNK_SIZE", "1024"), ("HF_XET_MAX_XORB_BYTES", "8192"), ("HF_XET_MAX_XORB_CHUNKS", "64"), ("HF_XET_MDB_SHARD_MIN_TARGET_SIZE", "1024")], Kind::Concurrent),
+    ("A2: as A (further histories, first part)", &[], Kind::Extra(0)),
+    ("A3: as A (further histories, second part)", &[], Kind::Extra(1)),
+    ("B2: as B (further histories, first part)", &[("HF_XET_MDB_SHARD_MIN_TARGET_SIZE", "4096")], Kind::Extra(0)),
+    ("B3: as B (further histories, second part)", &[("HF_XET_MDB_SHARD_MIN_TARGET_SIZE", "4096")], Kind::Extra(1)),
+    ("H: as A, minimum shard size 1024 bytes (a shard every 2-3 xorbs), HTTP store mirrored to disk", &[("HF_XET_MDB_SHARD_MIN_TARGET_SIZE", "1024")], Kind::Http),
+    ("U1: as A, HF_XET_MAX_CONCURRENT_UPLOADS=1 (uploads strictly serialized)", &[("HF_XET_MAX_CONCURRENT_UPLOADS", "1")], Kind::Serial),
+    ("U64: as A, HF_XET_MAX_CONCURRENT_UPLOADS=64 (every upload of a session in flight at once)", &[("HF_XET_MAX_CONCURRENT_UPLOADS", "64")], Kind::Wide),
 ];
 
 // ---------------------------------------------------------------------------------------------------------------------------------
 // configuration, reference chunk boundaries
 // ---------------------------------------------------------------------------------------------------------------------------------
 
-fn config(endpoint: Endpoint, local: &Path) -> Arc<TranslatorConfig> {
+fn config(endpoint: Endpoint, local: &Path) -> Arc<TranslatorConfig> { config_p(endpoint, local, GlobalDedupPolicy::Never) }
+fn config_p(endpoint: Endpoint, local: &Path, policy: GlobalDedupPolicy) -> Arc<TranslatorConfig> {
     std::fs::create_dir_all(local).unwrap();
     Arc::new(TranslatorConfig {
         data_config: DataConfig {
@@ -62,15 +85,16 @@ fn config(endpoint: Endpoint, local: &Path) -> Arc<TranslatorConfig> {
             prefix: "default".into(),
             cache_directory: local.join("shard-cache"),
             session_directory: local.join("shard-session"),
-            global_dedup_policy: GlobalDedupPolicy::Never,
+            global_dedup_policy: policy,
             repo_salt: [0u8; 32],
         },
         repo_info: Some(RepoInfo { repo_paths: vec!["".into()] }),
     })
 }
-fn local_store(store: &Path, local: &Path) -> Arc<TranslatorConfig> {
+fn local_store(store: &Path, local: &Path) -> Arc<TranslatorConfig> { local_store_p(store, local, GlobalDedupPolicy::Never) }
+fn local_store_p(store: &Path, local: &Path, policy: GlobalDedupPolicy) -> Arc<TranslatorConfig> {
     std::fs::create_dir_all(store).unwrap();
-    config(Endpoint::FileSystem(store.to_path_buf()), local)
+    config_p(Endpoint::FileSystem(store.to_path_buf()), local, policy)
 }
 
 /// gear-hash rule (see c04_chunker): end offsets of the chunks of `data`
@@ -132,6 +156,50 @@ enum Fault {
     ShardDirBeforeFinalize,
     /// a truncated object sits at the path of this xorb
     Planted(MerkleHash, String),
+    /// a directory of the store or of the local machine replaced by a regular file at a chosen moment
+    Break(Target, When),
+    /// the same, but only for the duration of ONE call (add_data / finish) and the pause after it: a single upload fails, every
+    /// later one succeeds - the failure can only be reported through the session's bookkeeping of its background uploads
+    Blip(Target, When),
+}
+
+#[derive(Clone, Copy, Debug, PartialEq)]
+enum Target {
+    XorbDir,
+    ShardDir,
+    /// the local store's global-dedup database directory
+    DedupDb,
+    /// the machine's shard cache directory (sessions export their uploaded shards into it)
+    CacheDir,
+    /// the parent of the per-session staging directories
+    SessionDir,
+}
+#[derive(Clone, Copy, Debug, PartialEq)]
+enum When {
+    BeforeNew,
+    /// before the add_data call number n of the session (counted over all files, ghost cleaner excluded)
+    AfterBlocks(usize),
+    /// before finish() of file number k
+    BeforeFinish(usize),
+    BeforeFinalize,
+}
+
+/// How a session is driven (all false / None: one cleaner at a time, blocks of one xorb with pauses, finalize_with_file_info).
+#[derive(Clone, Default)]
+struct Opts {
+    /// two cleaners alive at a time, their blocks alternate
+    interleave: bool,
+    /// a cleaner that is started first, fed completely and DROPPED without finish()
+    ghost: Option<FileIn>,
+    /// finalize() instead of finalize_with_file_info()
+    plain_finalize: bool,
+    /// the session is dropped without finalize (Some(true): fed by one call per file without pauses, uploads still pending)
+    abandon: Option<bool>,
+    dry_run: bool,
+    /// the session runs on a "second machine": fresh local directories, same store
+    fresh_local: bool,
+    /// one add_data call per file, no pauses
+    one_call: bool,
 }
 
 struct Outcome {
@@ -159,35 +227,103 @@ fn xorb_path(store: &Path, h: &MerkleHash) -> PathBuf { xorb_dir(store).join(for
 
 async fn pause() { tokio::time::sleep(Duration::from_millis(25)).await; }
 
+fn target_path(cfg: &TranslatorConfig, store: Option<&Path>, t: Target) -> Option<PathBuf> {
+    match t {
+        Target::XorbDir => store.map(xorb_dir),
+        Target::ShardDir => store.map(shard_dir),
+        Target::DedupDb => store.map(|s| s.join("global_dedup_lookup.db")),
+        Target::CacheDir => Some(cfg.shard_config.cache_directory.clone()),
+        Target::SessionDir => Some(cfg.shard_config.session_directory.clone()),
+    }
+}
+fn repair_all(cfg: &TranslatorConfig, store: Option<&Path>) {
+    for t in [Target::XorbDir, Target::ShardDir, Target::DedupDb, Target::CacheDir, Target::SessionDir] {
+        if let Some(p) = target_path(cfg, store, t) { repair_dir(&p); }
+    }
+}
+
 /// One session: the files are cleaned one after the other, fed in blocks of one xorb's worth of bytes with a short pause after
 /// every call (so that background uploads have finished before the next step, and a fault hits the intended xorb).
 async fn run_session(cfg: Arc<TranslatorConfig>, tp: Arc<ThreadPool>, store: Option<&Path>, files: &[FileIn], fault: &Fault, dry_run: bool) -> Outcome {
+    run_session_opts(cfg, tp, store, files, fault, &Opts { dry_run, ..Default::default() }).await
+}
+
+async fn run_session_opts(cfg: Arc<TranslatorConfig>, tp: Arc<ThreadPool>, store: Option<&Path>, files: &[FileIn], fault: &Fault, opts: &Opts) -> Outcome {
     let mut out = Outcome { error: None, pointers: vec![], file_metrics: vec![], session_metrics: None, xorbs_of_first_file: vec![] };
-    let block = *deduplication::constants::MAX_XORB_BYTES;
+    let quick = opts.one_call || opts.abandon == Some(true);
+    let block = if quick { usize::MAX } else { *deduplication::constants::MAX_XORB_BYTES };
+    let cfg2 = cfg.clone();
+    let hit = |w: When| -> Option<PathBuf> {
+        match fault {
+            Fault::Break(t, when) if *when == w => { if let Some(p) = target_path(&cfg2, store, *t) { break_dir(&p); } None },
+            Fault::Blip(t, when) if *when == w => { let p = target_path(&cfg2, store, *t)?; break_dir(&p); Some(p) },
+            _ => None,
+        }
+    };
     if let (Fault::XorbDirBeforeStart, Some(s)) = (fault, store) { break_dir(&xorb_dir(s)); }
     if let (Fault::Planted(h, _), Some(s)) = (fault, store) {
         std::fs::create_dir_all(xorb_dir(s)).unwrap();
         std::fs::write(xorb_path(s, h), [0x58u8; 64]).unwrap(); // 64 bytes that are no xorb
     }
-    let session = match if dry_run { FileUploadSession::dry_run(cfg, tp, None).await } else { FileUploadSession::new(cfg, tp, None).await } {
+    let _ = hit(When::BeforeNew);
+    let session = match if opts.dry_run { FileUploadSession::dry_run(cfg, tp, None).await } else { FileUploadSession::new(cfg, tp, None).await } {
         Ok(s) => s,
         Err(e) => { out.error = Some(format!("FileUploadSession::new: {e}")); return out; },
     };
-    for (fi, f) in files.iter().enumerate() {
-        let mut cleaner = session.start_clean(f.name.clone());
-        for (bi, b) in f.data.chunks(block).enumerate() {
-            if let (Fault::XorbDirAfterBlocks(n), Some(s), 0) = (fault, store, fi) { if *n == bi { break_dir(&xorb_dir(s)); } }
-            if let Err(e) = cleaner.add_data(b).await { out.error = Some(format!("add_data (file '{}', block {bi}): {e}", f.name)); return out; }
-            pause().await;
+    if let Some(g) = &opts.ghost {
+        let mut cleaner = session.start_clean(g.name.clone());
+        for (bi, b) in g.data.chunks(block).enumerate() {
+            if let Err(e) = cleaner.add_data(b).await { out.error = Some(format!("add_data (file '{}' whose cleaner is dropped later, block {bi}): {e}", g.name)); return out; }
+            if !quick { pause().await; }
         }
-        if let (Fault::XorbDirBeforeFirstFinish, Some(s), 0) = (fault, store, fi) { break_dir(&xorb_dir(s)); }
-        match cleaner.finish().await {
-            Ok((p, m)) => { out.pointers.push(p); out.file_metrics.push(m); },
-            Err(e) => { out.error = Some(format!("finish (file '{}'): {e}", f.name)); return out; },
+        drop(cleaner);
+    }
+    let groups: Vec<Vec<usize>> = if opts.interleave { (0..files.len()).collect::<Vec<_>>().chunks(2).map(|c| c.to_vec()).collect() } else { (0..files.len()).map(|i| vec![i]).collect() };
+    let mut fed = 0usize;
+    for group in groups {
+        let mut cleaners: Vec<_> = group.iter().map(|&fi| Some(session.start_clean(files[fi].name.clone()))).collect();
+        let blocks: Vec<Vec<&[u8]>> = group.iter().map(|&fi| files[fi].data.chunks(block).collect()).collect();
+        let rounds = blocks.iter().map(|b| b.len()).max().unwrap_or(0);
+        for bi in 0..rounds {
+            for (gi, &fi) in group.iter().enumerate() {
+                let Some(b) = blocks[gi].get(bi) else { continue };
+                if let (Fault::XorbDirAfterBlocks(n), Some(s), 0) = (fault, store, fi) { if *n == bi { break_dir(&xorb_dir(s)); } }
+                let blip = hit(When::AfterBlocks(fed));
+                let r = cleaners[gi].as_mut().unwrap().add_data(b).await;
+                if blip.is_some() { pause().await; pause().await; }
+                if let Some(p) = blip { repair_dir(&p); }
+                if let Err(e) = r { out.error = Some(format!("add_data (file '{}', block {bi}): {e}", files[fi].name)); return out; }
+                fed += 1;
+                if !quick { pause().await; }
+            }
         }
-        pause().await;
+        for (gi, &fi) in group.iter().enumerate() {
+            if let (Fault::XorbDirBeforeFirstFinish, Some(s), 0) = (fault, store, fi) { break_dir(&xorb_dir(s)); }
+            let blip = hit(When::BeforeFinish(fi));
+            let r = cleaners[gi].take().unwrap().finish().await;
+            if blip.is_some() { pause().await; pause().await; }
+            if let Some(p) = blip { repair_dir(&p); }
+            match r {
+                Ok((p, m)) => { out.pointers.push(p); out.file_metrics.push(m); },
+                Err(e) => { out.error = Some(format!("finish (file '{}'): {e}", files[fi].name)); return out; },
+            }
+            if !quick { pause().await; }
+        }
+    }
+    if opts.abandon.is_some() {
+        drop(session);
+        out.error = Some("(the session was dropped without finalize)".into());
+        return out;
     }
     if let (Fault::ShardDirBeforeFinalize, Some(s)) = (fault, store) { break_dir(&shard_dir(s)); }
+    let _ = hit(When::BeforeFinalize);
+    if opts.plain_finalize {
+        match session.finalize().await {
+            Ok(m) => out.session_metrics = Some(m),
+            Err(e) => out.error = Some(format!("finalize: {e}")),
+        }
+        return out;
+    }
     match session.finalize_with_file_info().await {
         Ok((m, infos)) => {
             out.session_metrics = Some(m);
@@ -230,12 +366,15 @@ async fn download_check(store: &Path, scratch: &Path, tp: Arc<ThreadPool>, f: &F
     Ok(())
 }
 
-fn shard_files(store: &Path) -> BTreeMap<String, u64> {
+/// shard files of the store: name -> (size, inode, modification time); a shard that is handed to the store again (same content,
+/// same name) is written to a temporary file and renamed, i.e. shows up with a new inode
+fn shard_files(store: &Path) -> BTreeMap<String, (u64, u64, Option<std::time::SystemTime>)> {
+    use std::os::unix::fs::MetadataExt;
     let mut m = BTreeMap::new();
     if let Ok(rd) = std::fs::read_dir(shard_dir(store)) {
         for e in rd.flatten() {
             let n = e.file_name().to_string_lossy().to_string();
-            if n.ends_with(".mdb") { m.insert(n, e.metadata().map(|m| m.len()).unwrap_or(0)); }
+            if n.ends_with(".mdb") { m.insert(n, e.metadata().map(|m| (m.len(), m.ino(), m.modified().ok())).unwrap_or((0, 0, None))); }
         }
     }
     m
@@ -275,12 +414,60 @@ fn metrics_check(files: &[FileIn], o: &Outcome) -> Result<(), String> {
 struct Step {
     files: Vec<FileIn>,
     fault: Fault,
+    opts: Opts,
 }
 
 struct Ctx {
     tp: Arc<ThreadPool>,
     cfg_name: String,
     n_download: usize,
+    policy: GlobalDedupPolicy,
+}
+
+fn fault_text(f: &Fault) -> String {
+    match f {
+        Fault::None => "no fault".to_string(),
+        Fault::XorbDirBeforeStart => "the store's xorb directory is a regular file during the whole session".into(),
+        Fault::XorbDirAfterBlocks(n) => format!("the store's xorb directory is replaced by a regular file after {n} blocks of the first file"),
+        Fault::XorbDirBeforeFirstFinish => "the store's xorb directory is replaced by a regular file just before finish() of the first file".into(),
+        Fault::ShardDirBeforeFinalize => "the store's shard directory is replaced by a regular file just before finalize()".into(),
+        Fault::Planted(h, which) => format!("a truncated object sits at the path of the file's {which} xorb {}", h.hex()),
+        Fault::Break(t, w) | Fault::Blip(t, w) => format!(
+            "{} is replaced by a regular file {}{}",
+            match t {
+                Target::XorbDir => "the store's xorb directory",
+                Target::ShardDir => "the store's shard directory",
+                Target::DedupDb => "the store's global_dedup_lookup.db directory",
+                Target::CacheDir => "the machine's shard cache directory",
+                Target::SessionDir => "the machine's shard-session directory",
+            },
+            match w {
+                When::BeforeNew => "before FileUploadSession::new".to_string(),
+                When::AfterBlocks(n) => format!("after {n} add_data calls of the session"),
+                When::BeforeFinish(k) => format!("just before finish() of file #{k}"),
+                When::BeforeFinalize => "just before finalize()".to_string(),
+            },
+            if matches!(f, Fault::Blip(..)) { " and restored 50 ms after that call has returned" } else { "" }
+        ),
+    }
+}
+fn opts_text(o: &Opts) -> String {
+    let mut v = vec![];
+    if o.dry_run { v.push("DRY RUN".to_string()); }
+    if o.fresh_local { v.push("on a second machine (fresh local directories, same store)".into()); }
+    if o.interleave { v.push("two cleaners alive at a time, their blocks alternate".into()); }
+    if let Some(g) = &o.ghost { v.push(format!("a cleaner for '{}' ({}, {} bytes) is started first, fed completely and dropped without finish()", g.name, g.what, g.data.len())); }
+    if o.one_call { v.push("one add_data call per file, no pauses".into()); }
+    if o.plain_finalize { v.push("finalize() instead of finalize_with_file_info()".into()); }
+    match o.abandon { Some(true) => v.push("one add_data call per file, then the session is DROPPED without finalize while uploads are pending".into()), Some(false) => v.push("the session is DROPPED without finalize".into()), None => {} }
+    if v.is_empty() { String::new() } else { format!(" [{}]", v.join("; ")) }
+}
+
+/// content identity of the chunks of a file (own chunker, blake3): used for "a chunk stored by an earlier successful session of this
+/// machine is not stored again"
+fn chunk_ids(data: &[u8]) -> Vec<([u8; 32], usize)> {
+    let mut start = 0;
+    chunk_ends(data).into_iter().map(|e| { let id = (*blake3::hash(&data[start..e]).as_bytes(), e - start); start = e; id }).collect()
 }
 
 /// Runs the sessions of one history against one store + one local directory; returns a witness text on the first violation.
@@ -290,31 +477,28 @@ async fn run_history(cx: &mut Ctx, name: &str, steps: &[Step]) -> Option<String>
     std::fs::create_dir_all(&scratch).unwrap();
     let mut good: Vec<(FileIn, PointerFile, usize)> = vec![];
     let mut trail: Vec<String> = vec![];
+    // chunks stored by the successful sessions of the first machine
+    let mut known: std::collections::HashSet<[u8; 32]> = Default::default();
     for (si, st) in steps.iter().enumerate() {
-        let fault_text = match &st.fault {
-            Fault::None => "no fault".to_string(),
-            Fault::XorbDirBeforeStart => "the store's xorb directory is a regular file during the whole session".into(),
-            Fault::XorbDirAfterBlocks(n) => format!("the store's xorb directory is replaced by a regular file after {n} blocks of the first file"),
-            Fault::XorbDirBeforeFirstFinish => "the store's xorb directory is replaced by a regular file just before finish() of the first file".into(),
-            Fault::ShardDirBeforeFinalize => "the store's shard directory is replaced by a regular file just before finalize()".into(),
-            Fault::Planted(h, which) => format!("a truncated object sits at the path of the file's {which} xorb {}", h.hex()),
-        };
         let files_text: Vec<String> = st.files.iter().map(|f| format!("'{}' ({}, {} bytes)", f.name, f.what, f.data.len())).collect();
         let before = shard_files(&store);
-        let o = run_session(local_store(&store, &local), cx.tp.clone(), Some(&store), &st.files, &st.fault, false).await;
+        let local_dir = if st.opts.fresh_local { root.path().join(format!("local-of-machine-{}", si + 2)) } else { local.clone() };
+        let cfg = local_store_p(&store, &local_dir, cx.policy);
+        let cached_before = mdb_files(&cfg.shard_config.cache_directory);
+        let o = run_session_opts(cfg.clone(), cx.tp.clone(), Some(&store), &st.files, &st.fault, &st.opts).await;
         // repair everything before checking
-        repair_dir(&xorb_dir(&store));
-        repair_dir(&shard_dir(&store));
+        repair_all(&cfg, Some(&store));
         if let Fault::Planted(h, _) = &st.fault {
             let p = xorb_path(&store, h);
             if std::fs::metadata(&p).map(|m| m.len() == 64).unwrap_or(false) { let _ = std::fs::remove_file(&p); }
         }
-        trail.push(format!("session {}: files {} with {fault_text} -> {}", si + 1, files_text.join(", "), o.error.clone().map(|e| format!("error from {e}")).unwrap_or("every call Ok".into())));
+        trail.push(format!("session {}{}: files {} with {} -> {}", si + 1, opts_text(&st.opts), files_text.join(", "), fault_text(&st.fault), o.error.clone().map(|e| format!("error from {e}")).unwrap_or("every call Ok".into())));
         eprintln!("[{name}] {}", trail.last().unwrap());
-        let ctx = format!("config {}; history '{name}' (one process, one store, one shard cache): {}", cx.cfg_name, trail.join(" | "));
+        let policy_text = if cx.policy == GlobalDedupPolicy::Always { ", global dedup policy Always" } else { "" };
+        let ctx = format!("config {}{policy_text}; history '{name}' (one process, one store, one shard cache): {}", cx.cfg_name, trail.join(" | "));
         match &o.error {
             Some(e) => {
-                if st.fault == Fault::None {
+                if st.fault == Fault::None && st.opts.abandon.is_none() {
                     return Some(format!("{ctx}: session {} fails on a healthy store: {e}", si + 1));
                 }
             },
@@ -322,15 +506,46 @@ async fn run_history(cx: &mut Ctx, name: &str, steps: &[Step]) -> Option<String>
                 if let Err(e) = metrics_check(&st.files, &o) {
                     return Some(format!("{ctx}: session {}: {e}", si + 1));
                 }
-                let after = shard_files(&store);
-                let new_bytes: u64 = after.iter().filter(|(n, _)| !before.contains_key(*n)).map(|(_, s)| *s).sum();
-                let n_new = after.len() - before.len();
-                let reported = o.session_metrics.as_ref().map(|m| m.shard_bytes_uploaded as u64).unwrap_or(0);
-                if reported != new_bytes {
-                    return Some(format!("{ctx}: session {}: finalize() reports shard_bytes_uploaded = {reported} but {n_new} new shard file(s) of {new_bytes} bytes in total reached the store", si + 1));
+                if let Err(e) = global_counters_check(&st.files, &o, cx.policy) {
+                    return Some(format!("{ctx}: session {}: {e}", si + 1));
                 }
-                for (f, p) in st.files.iter().zip(&o.pointers) {
-                    good.push((f.clone(), p.clone(), si + 1));
+                let after = shard_files(&store);
+                let new_bytes: u64 = after.iter().filter(|(n, v)| before.get(*n) != Some(*v)).map(|(_, s)| s.0).sum();
+                let n_new = after.iter().filter(|(n, v)| before.get(*n) != Some(*v)).count();
+                let reported = o.session_metrics.as_ref().map(|m| m.shard_bytes_uploaded as u64).unwrap_or(0);
+                if st.opts.dry_run {
+                    // pinned, not flagged: LocalClient has no dry-run mode, the xorbs of a dry run ARE written to a local store
+                    if n_new > 0 {
+                        return Some(format!("{ctx}: session {}: the DRY RUN handed {n_new} shard(s) to the store", si + 1));
+                    }
+                    let cached: Vec<String> = mdb_files(&cfg.shard_config.cache_directory).into_iter().filter(|n| !cached_before.contains(n)).collect();
+                    if !cached.is_empty() {
+                        return Some(format!("{ctx}: session {}: the DRY RUN registered nothing with the store, yet left {} new shard(s) in the local shard cache: {cached:?}", si + 1, cached.len()));
+                    }
+                    for (f, p) in st.files.iter().zip(&o.pointers) {
+                        if p.filesize() != f.data.len() as u64 {
+                            return Some(format!("{ctx}: session {}: pointer of file '{}' records size {} but {} bytes were fed", si + 1, f.name, p.filesize(), f.data.len()));
+                        }
+                    }
+                } else {
+                    if reported != new_bytes {
+                        return Some(format!("{ctx}: session {}: finalize() reports shard_bytes_uploaded = {reported} but {n_new} shard file(s) of {new_bytes} bytes in total were written to the store", si + 1));
+                    }
+                    // C11 at the session level: a chunk that an earlier SUCCESSFUL session of this machine stored is not stored again
+                    // (all files here have far fewer than 128 segments, fragmentation prevention cannot interfere)
+                    let ids: Vec<Vec<([u8; 32], usize)>> = st.files.iter().map(|f| chunk_ids(&f.data)).collect();
+                    if !st.opts.fresh_local {
+                        for ((f, m), ids) in st.files.iter().zip(&o.file_metrics).zip(&ids) {
+                            let unknown: usize = ids.iter().filter(|(h, _)| !known.contains(h)).map(|(_, n)| *n).sum();
+                            if m.new_bytes > unknown {
+                                return Some(format!("{ctx}: session {}: file '{}' ({}): finish() reports {} new bytes, but only {unknown} of its {} bytes lie in chunks that no earlier successful session sharing this shard cache had stored", si + 1, f.name, f.what, m.new_bytes, f.data.len()));
+                            }
+                        }
+                        for ids in &ids { known.extend(ids.iter().map(|(h, _)| *h)); }
+                    }
+                    for (f, p) in st.files.iter().zip(&o.pointers) {
+                        good.push((f.clone(), p.clone(), si + 1));
+                    }
                 }
             },
         }
@@ -342,6 +557,22 @@ async fn run_history(cx: &mut Ctx, name: &str, steps: &[Step]) -> Option<String>
         }
     }
     None
+}
+
+/// GlobalDedupPolicy::Never: nothing may be counted as deduplicated through global dedup; always: that counter is part of the
+/// deduplicated bytes / chunks.
+fn global_counters_check(files: &[FileIn], o: &Outcome, policy: GlobalDedupPolicy) -> Result<(), String> {
+    let mut all: Vec<(String, &DeduplicationMetrics)> = files.iter().zip(&o.file_metrics).map(|(f, m)| (format!("finish() of file '{}'", f.name), m)).collect();
+    if let Some(m) = &o.session_metrics { all.push(("finalize()".to_string(), m)); }
+    for (what, m) in all {
+        if policy == GlobalDedupPolicy::Never && (m.deduped_bytes_by_global_dedup != 0 || m.deduped_chunks_by_global_dedup != 0) {
+            return Err(format!("{what} reports {} bytes / {} chunks deduplicated by global dedup although the policy is Never", m.deduped_bytes_by_global_dedup, m.deduped_chunks_by_global_dedup));
+        }
+        if m.deduped_bytes_by_global_dedup > m.deduped_bytes || m.deduped_chunks_by_global_dedup > m.deduped_chunks {
+            return Err(format!("{what} reports {} bytes / {} chunks deduplicated by global dedup but only {} bytes / {} chunks deduplicated in total", m.deduped_bytes_by_global_dedup, m.deduped_chunks_by_global_dedup, m.deduped_bytes, m.deduped_chunks));
+        }
+    }
+    Ok(())
 }
 
 // ---------------------------------------------------------------------------------------------------------------------------------
@@ -356,6 +587,31 @@ struct HttpState {
     reject_index: Option<usize>,
     hold_index: Option<usize>,
     rejection_delivered: bool,
+    // --- coverage review additions: script ---
+    /// accepted xorbs / shards are written below this directory in the local store's layout (xorbs/default.<hash>, shards/<hash>.mdb)
+    mirror: Option<PathBuf>,
+    /// every accepted xorb is answered `was_inserted: false` / every accepted shard `result: 0` (exists)
+    xorb_not_inserted: bool,
+    shard_exists: bool,
+    /// every xorb answer is delayed by this many milliseconds
+    delay_ms: u64,
+    /// no xorb upload is answered before this many have been in flight at the same time (gives up after 5 s)
+    gate: usize,
+    /// the connection is closed without an answer on the first arrival of xorb upload #k
+    xorb_close_once: Option<usize>,
+    /// shard upload #k is rejected with 403
+    shard_reject: Option<usize>,
+    /// GET /chunk/<prefix>/<hash> is answered with the first accepted shard that contains the hash (else 404)
+    serve_chunks: bool,
+    // --- observations ---
+    shard_posts: Vec<(String, bool)>,
+    shard_bodies: Vec<Vec<u8>>,
+    shard_bytes_accepted: u64,
+    in_flight: usize,
+    max_in_flight: usize,
+    chunk_queries: usize,
+    chunk_hits: usize,
+    closed_without_answer: usize,
 }
 #[derive(Default)]
 struct HttpStore {
@@ -363,7 +619,7 @@ struct HttpStore {
     cv: Condvar,
 }
 
-fn read_request(stream: &mut TcpStream) -> Option<(String, String, usize)> {
+fn read_request(stream: &mut TcpStream) -> Option<(String, String, Vec<u8>)> {
     let mut buf = Vec::new();
     let mut tmp = [0u8; 16 * 1024];
     let header_end = loop {
@@ -383,32 +639,50 @@ fn read_request(stream: &mut TcpStream) -> Option<(String, String, usize)> {
             if k.trim().eq_ignore_ascii_case("content-length") { content_length = v.trim().parse().ok()?; }
         }
     }
-    let mut have = buf.len() - header_end;
-    while have < content_length {
+    let mut body = buf[header_end..].to_vec();
+    while body.len() < content_length {
         let n = stream.read(&mut tmp).ok()?;
         if n == 0 { return None; }
-        have += n;
+        body.extend_from_slice(&tmp[..n]);
     }
-    Some((method, path, content_length))
+    Some((method, path, body))
 }
-fn respond(stream: &mut TcpStream, status: &str, body: &str) {
-    let msg = format!("HTTP/1.1 {status}\r\ncontent-type: application/json\r\ncontent-length: {}\r\n\r\n{body}", body.len());
-    let _ = stream.write_all(msg.as_bytes());
+fn respond(stream: &mut TcpStream, status: &str, body: &str) { respond_bytes(stream, status, "application/json", body.as_bytes()) }
+fn respond_bytes(stream: &mut TcpStream, status: &str, content_type: &str, body: &[u8]) {
+    let mut msg = format!("HTTP/1.1 {status}\r\ncontent-type: {content_type}\r\ncontent-length: {}\r\n\r\n", body.len()).into_bytes();
+    msg.extend_from_slice(body);
+    let _ = stream.write_all(&msg);
     let _ = stream.flush();
 }
 fn serve(mut stream: TcpStream, store: Arc<HttpStore>) {
     let _ = stream.set_nodelay(true);
-    while let Some((method, path, _len)) = read_request(&mut stream) {
+    while let Some((method, path, body)) = read_request(&mut stream) {
         if path.starts_with("/xorb/") {
             let hash = path.rsplit('/').next().unwrap_or("").to_string();
-            let (reject, hold) = {
+            let (reject, hold, close, delay, mirror, not_inserted) = {
                 let mut st = store.state.lock().unwrap();
                 let idx = st.xorb_posts.len();
                 let reject = st.reject_index == Some(idx);
-                st.xorb_posts.push((hash, !reject));
-                (reject, st.hold_index == Some(idx) && st.reject_index.is_some())
+                let close = st.xorb_close_once == Some(idx);
+                if close { st.xorb_close_once = None; st.closed_without_answer += 1; }
+                st.xorb_posts.push((hash.clone(), !reject && !close));
+                st.in_flight += 1;
+                st.max_in_flight = st.max_in_flight.max(st.in_flight);
+                (reject, st.hold_index == Some(idx) && st.reject_index.is_some(), close, st.delay_ms, st.mirror.clone(), st.xorb_not_inserted)
             };
+            store.cv.notify_all();
+            {
+                let st = store.state.lock().unwrap();
+                if st.gate > 0 { let _ = store.cv.wait_timeout_while(st, Duration::from_secs(5), |s| s.max_in_flight < s.gate).unwrap(); }
+            }
+            if delay > 0 { std::thread::sleep(Duration::from_millis(delay)); }
+            if close {
+                store.state.lock().unwrap().in_flight -= 1;
+                let _ = stream.shutdown(std::net::Shutdown::Both);
+                return;
+            }
             if reject {
+                store.state.lock().unwrap().in_flight -= 1;
                 respond(&mut stream, "403 Forbidden", "{}");
                 store.state.lock().unwrap().rejection_delivered = true;
                 store.cv.notify_all();
@@ -418,11 +692,50 @@ fn serve(mut stream: TcpStream, store: Arc<HttpStore>) {
                     let _ = store.cv.wait_timeout_while(st, Duration::from_secs(8), |s| !s.rejection_delivered).unwrap();
                     std::thread::sleep(Duration::from_millis(300));
                 }
-                respond(&mut stream, "200 OK", r#"{"was_inserted":true}"#);
+                if let Some(m) = mirror {
+                    let _ = std::fs::create_dir_all(m.join("xorbs"));
+                    let _ = std::fs::write(m.join("xorbs").join(format!("default.{hash}")), &body);
+                }
+                store.state.lock().unwrap().in_flight -= 1;
+                respond(&mut stream, "200 OK", if not_inserted { r#"{"was_inserted":false}"# } else { r#"{"was_inserted":true}"# });
             }
         } else if path.starts_with("/shard/") {
-            store.state.lock().unwrap().shards += 1;
-            respond(&mut stream, "200 OK", r#"{"result":1}"#);
+            let hash = path.rsplit('/').next().unwrap_or("").to_string();
+            let (reject, mirror, exists) = {
+                let mut st = store.state.lock().unwrap();
+                st.shards += 1;
+                let idx = st.shard_posts.len();
+                let reject = st.shard_reject == Some(idx);
+                st.shard_posts.push((hash.clone(), !reject));
+                if !reject { st.shard_bytes_accepted += body.len() as u64; st.shard_bodies.push(body.clone()); }
+                (reject, st.mirror.clone(), st.shard_exists)
+            };
+            if reject {
+                respond(&mut stream, "403 Forbidden", "{}");
+            } else {
+                if let Some(m) = mirror {
+                    let _ = std::fs::create_dir_all(m.join("shards"));
+                    let _ = std::fs::write(m.join("shards").join(format!("{hash}.mdb")), &body);
+                }
+                respond(&mut stream, "200 OK", if exists { r#"{"result":0}"# } else { r#"{"result":1}"# });
+            }
+        } else if path.starts_with("/chunk/") && method == "GET" {
+            let hash = path.rsplit('/').next().unwrap_or("").to_string();
+            let found = {
+                let mut st = store.state.lock().unwrap();
+                st.chunk_queries += 1;
+                let raw = MerkleHash::from_hex(&hash).ok().map(|h| h.as_bytes().to_vec());
+                let found = match (st.serve_chunks, raw) {
+                    (true, Some(raw)) => st.shard_bodies.iter().find(|b| b.windows(raw.len()).any(|w| w == &raw[..])).cloned(),
+                    _ => None,
+                };
+                if found.is_some() { st.chunk_hits += 1; }
+                found
+            };
+            match found {
+                Some(shard) => respond_bytes(&mut stream, "200 OK", "application/octet-stream", &shard),
+                None => respond(&mut stream, "404 Not Found", "{}"),
+            }
         } else {
             store.state.lock().unwrap().other.push(format!("{method} {path}"));
             respond(&mut stream, "404 Not Found", "{}");
@@ -521,7 +834,7 @@ async fn http_histories(cx: &mut Ctx, f: &FileIn) -> Option<String> {
 // ---------------------------------------------------------------------------------------------------------------------------------
 
 async fn run_all(tp: Arc<ThreadPool>, cfg_name: String, seed: u64, full: bool) -> Option<String> {
-    let mut cx = Ctx { tp, cfg_name, n_download: 0 };
+    let mut cx = Ctx { tp, cfg_name, n_download: 0, policy: GlobalDedupPolicy::Never };
     let file = |name: &str, what: &str, data: Vec<u8>| FileIn { name: name.into(), what: what.into(), data: Arc::new(data) };
     let a_bytes = random(seed * 100 + 1, 250_000);
     let ends = chunk_ends(&a_bytes);
@@ -541,7 +854,7 @@ async fn run_all(tp: Arc<ThreadPool>, cfg_name: String, seed: u64, full: bool) -
     let x = file("A-extended", "A followed by 120,000 fresh bytes", x_bytes);
     let d = file("D", "fresh random data", random(seed * 100 + 7, 230_000));
     let empty = file("empty", "no bytes", vec![]);
-    let step = |files: &[&FileIn], fault: Fault| Step { files: files.iter().map(|f| (*f).clone()).collect(), fault };
+    let step = |files: &[&FileIn], fault: Fault| Step { files: files.iter().map(|f| (*f).clone()).collect(), fault, opts: Opts::default() };
 
     // 1. healthy histories: dedup structures across sessions
     if let Some(w) = run_history(&mut cx, "dedup structures", &[
@@ -657,10 +970,643 @@ async fn endpoint_histories(cx: &mut Ctx, a: &FileIn, x: &FileIn) -> Option<Stri
     None
 }
 
+// ---------------------------------------------------------------------------------------------------------------------------------
+// coverage review: further histories against the local store
+// ---------------------------------------------------------------------------------------------------------------------------------
+
+/// The standard files (same contents as in run_all).
+struct Files {
+    a: FileIn,
+    small: FileIn,
+    b: FileIn,
+    c: FileIn,
+    x: FileIn,
+    d: FileIn,
+    empty: FileIn,
+    a_bytes: Vec<u8>,
+    ends: Vec<usize>,
+}
+fn mkfile(name: &str, what: &str, data: Vec<u8>) -> FileIn { FileIn { name: name.into(), what: what.into(), data: Arc::new(data) } }
+fn standard_files(seed: u64) -> Files {
+    let a_bytes = random(seed * 100 + 1, 250_000);
+    let ends = chunk_ends(&a_bytes);
+    let cut = ends[ends.len() * 3 / 5];
+    let mut x_bytes = a_bytes.clone();
+    x_bytes.extend(random(seed * 100 + 6, 120_000));
+    Files {
+        a: mkfile("A", "fresh random data", a_bytes.clone()),
+        small: mkfile("small", "fresh, smaller than a xorb", random(seed * 100 + 2, 10_000)),
+        b: mkfile("A-prefix", &format!("A cut at its chunk boundary {cut}: new file hash, no new chunk"), a_bytes[..cut].to_vec()),
+        c: mkfile("C", "fresh random data", random(seed * 100 + 3, 60_000)),
+        x: mkfile("A-extended", "A followed by 120,000 fresh bytes", x_bytes),
+        d: mkfile("D", "fresh random data", random(seed * 100 + 7, 230_000)),
+        empty: mkfile("empty", "no bytes", vec![]),
+        a_bytes,
+        ends,
+    }
+}
+/// 14 files of 2,000..30,000 bytes and 12 files of 300..707 bytes (a single chunk each)
+fn small_files(seed: u64) -> (Vec<FileIn>, Vec<FileIn>) {
+    let mut rng = StdRng::seed_from_u64(seed * 100 + 12);
+    let smalls: Vec<FileIn> = (0..14).map(|i| { let len = rng.random_range(2_000..30_000usize); mkfile(&format!("s{i}"), "fresh, smaller than a xorb", random(seed * 1000 + 100 + i, len)) }).collect();
+    let tinies: Vec<FileIn> = (0..12u64).map(|i| mkfile(&format!("tiny{i}"), "fresh, a single chunk", random(seed * 1000 + 200 + i, 300 + 37 * i as usize))).collect();
+    (smalls, tinies)
+}
+fn st(files: &[&FileIn], fault: Fault, opts: Opts) -> Step { Step { files: files.iter().map(|f| (*f).clone()).collect(), fault, opts } }
+fn ok(files: &[&FileIn]) -> Step { st(files, Fault::None, Opts::default()) }
+
+/// Model of the session-level aggregation (only used to PLACE faults): which finish() cuts the session's aggregated data (the
+/// larger side: session data -> "swap", file data -> "no swap")?  Returns (index of the first swap cut, of the first no-swap cut).
+fn aggregation_cuts(files: &[FileIn]) -> (Option<usize>, Option<usize>) {
+    let (max_b, max_c) = (*deduplication::constants::MAX_XORB_BYTES, *deduplication::constants::MAX_XORB_CHUNKS);
+    let (mut cur_b, mut cur_c) = (0usize, 0usize);
+    let (mut swap, mut noswap) = (None, None);
+    for (i, f) in files.iter().enumerate() {
+        let (fb, fc) = (f.data.len(), chunk_ends(&f.data).len());
+        if cur_b + fb > max_b || cur_c + fc > max_c {
+            if cur_b > fb { swap = swap.or(Some(i)); cur_b = fb; cur_c = fc; } else { noswap = noswap.or(Some(i)); }
+        } else {
+            cur_b += fb;
+            cur_c += fc;
+        }
+    }
+    (swap, noswap)
+}
+
+async fn extra_histories(tp: Arc<ThreadPool>, cfg_name: String, seed: u64, part: usize) -> Option<String> {
+    let mut cx = Ctx { tp, cfg_name, n_download: 0, policy: GlobalDedupPolicy::Never };
+    let fs = standard_files(seed);
+    let (a, small, b, c, x, d, empty) = (&fs.a, &fs.small, &fs.b, &fs.c, &fs.x, &fs.d, &fs.empty);
+    let (ab, ends) = (&fs.a_bytes, &fs.ends);
+    let n = ends.len();
+    let plain = Opts { plain_finalize: true, ..Default::default() };
+
+    if part == 0 {
+        // E1. slices of an earlier file, each ALONE in its session (no xorb, a shard holding only a file record), hit -> new -> hit, a
+        // file whose data went into the session's final aggregated xorb, sessions without files, finalize() vs finalize_with_file_info()
+        let suffix = mkfile("A-suffix", &format!("A from its chunk boundary {} to its end: no new chunk", ends[n * 2 / 5]), ab[ends[n * 2 / 5]..].to_vec());
+        let middle = mkfile("A-middle", &format!("A between its chunk boundaries {} and {}: no new chunk", ends[n / 5], ends[n * 3 / 5]), ab[ends[n / 5]..ends[n * 3 / 5]].to_vec());
+        let mut h_bytes = ab[..ends[n / 6]].to_vec();
+        h_bytes.extend(random(seed * 100 + 11, 30_000));
+        h_bytes.extend_from_slice(&ab[ends[n * 2 / 3]..ends[n * 5 / 6]]);
+        let h = mkfile("hit-new-hit", &format!("chunks 0..{} of A, 30,000 fresh bytes, chunks {}..{} of A", n / 6 + 1, n * 2 / 3 + 1, n * 5 / 6 + 1), h_bytes);
+        if let Some(w) = run_history(&mut cx, "slices of an earlier file alone in a session; empty sessions", &[
+            ok(&[a, small]),
+            ok(&[&suffix]),
+            st(&[&middle], Fault::None, plain.clone()),
+            ok(&[&h]),
+            ok(&[small, empty]),
+            ok(&[]),
+            st(&[], Fault::None, plain.clone()),
+            st(&[a, small, &suffix, &middle, &h], Fault::None, plain.clone()),
+        ]).await { return Some(w); }
+
+        // E2. many small files: the session's aggregated data is cut by bytes and by chunk count, by either side of the comparison
+        let (smalls, tinies) = small_files(seed);
+        let sm: Vec<&FileIn> = smalls.iter().collect();
+        let ti: Vec<&FileIn> = tinies.iter().collect();
+        let (swap_cut, noswap_cut) = aggregation_cuts(&smalls);
+        let (tiny_swap, tiny_noswap) = aggregation_cuts(&tinies);
+        eprintln!("[small files] model: first cut of the session data at finish #{swap_cut:?}, of the file data at finish #{noswap_cut:?}; tiny files: {tiny_swap:?} / {tiny_noswap:?}");
+        let mut sm_rev = sm.clone();
+        sm_rev.reverse();
+        let mut mixed: Vec<&FileIn> = ti.iter().rev().cloned().collect();
+        mixed.push(sm[3]);
+        if let Some(w) = run_history(&mut cx, "many small files in one session", &[
+            ok(&sm),
+            ok(&ti),
+            st(&sm_rev, Fault::None, plain.clone()),
+            ok(&mixed),
+            st(&[sm[0], ti[0], sm[1], ti[1], sm[2], ti[2], sm[3], ti[3]], Fault::None, Opts { interleave: true, ..Default::default() }),
+        ]).await { return Some(w); }
+
+        // E3. the upload of a session-level xorb fails: cut by a finish() (either side) / by finalize
+        let mut places: Vec<(bool, When)> = vec![(false, When::BeforeFinalize), (true, When::BeforeFinalize)];
+        if let Some(k) = swap_cut { places.push((false, When::BeforeFinish(k))); }
+        if let Some(k) = noswap_cut { places.push((false, When::BeforeFinish(k))); }
+        if let Some(k) = tiny_swap.or(tiny_noswap) { places.push((true, When::BeforeFinish(k))); }
+        for (tiny, when) in places {
+            let set = if tiny { &ti } else { &sm };
+            let fault = if when == When::BeforeFinalize { Fault::Break(Target::XorbDir, when) } else { Fault::Blip(Target::XorbDir, when) };
+            if let Some(w) = run_history(&mut cx, "small files: the upload of a xorb aggregated over several files fails, retry", &[
+                ok(&[a]),
+                st(set, fault, Opts::default()),
+                ok(set),
+                ok(&[sm[5], ti[3], c]),
+            ]).await { return Some(w); }
+        }
+
+        // E4. a cleaner that is fed and dropped without finish(); a later file of the session deduplicates against its xorbs
+        let g = mkfile("G", "fresh random data", random(seed * 100 + 13, 100_000));
+        let g_copy = mkfile("G-copy", "same bytes as the file of the dropped cleaner", (*g.data).clone());
+        if let Some(w) = run_history(&mut cx, "a cleaner dropped without finish()", &[
+            st(&[&g_copy, small], Fault::None, Opts { ghost: Some(g.clone()), ..Default::default() }),
+            ok(&[&g]),
+            st(&[c], Fault::None, Opts { ghost: Some(d.clone()), plain_finalize: true, ..Default::default() }),
+            ok(&[d]),
+        ]).await { return Some(w); }
+        let reference = {
+            let root = tempfile::tempdir().unwrap();
+            let (store, local) = (root.path().join("store"), root.path().join("local"));
+            run_session(local_store(&store, &local), cx.tp.clone(), Some(&store), std::slice::from_ref(d), &Fault::None, false).await
+        };
+        if let Some(e) = reference.error { return Some(format!("config {}: reference session of file 'D' on a healthy store fails: {e}", cx.cfg_name)); }
+        let xs = reference.xorbs_of_first_file;
+        if xs.len() < 3 { return Some(format!("HARNESS file 'D' produced only {} xorbs in the reference session", xs.len())); }
+        let d_copy = mkfile("D-copy", "same bytes as the file of the dropped cleaner", (*d.data).clone());
+        if let Some(w) = run_history(&mut cx, "the upload of a xorb cut by a cleaner that is dropped later fails", &[
+            st(&[&d_copy], Fault::Planted(xs[xs.len() / 2], format!("middle (#{} of {})", xs.len() / 2, xs.len())), Opts { ghost: Some(d.clone()), ..Default::default() }),
+            ok(&[d]),
+        ]).await { return Some(w); }
+
+        // E5. abandoned sessions (dropped without finalize), without and with pending uploads
+        if let Some(w) = run_history(&mut cx, "sessions dropped without finalize", &[
+            ok(&[a]),
+            st(&[x, small], Fault::None, Opts { abandon: Some(false), ..Default::default() }),
+            ok(&[x, small]),
+            st(&[d, c], Fault::None, Opts { abandon: Some(true), ..Default::default() }),
+            ok(&[d, b]),
+            st(&[c], Fault::None, Opts { abandon: Some(true), ..Default::default() }),
+            st(&[c, a], Fault::None, Opts { one_call: true, ..Default::default() }),
+        ]).await { return Some(w); }
+
+        // E7. a failed session followed by a file that overlaps only the part of it that never reached the store
+        let ends_x = chunk_ends(&x.data);
+        let nx = ends_x.len();
+        let mut e2_bytes = random(seed * 100 + 14, 30_000);
+        e2_bytes.extend_from_slice(&x.data[ends_x[nx - 10]..ends_x[nx - 3]]);
+        e2_bytes.extend(random(seed * 100 + 15, 30_000));
+        let e2 = mkfile("edited-2", &format!("30,000 fresh bytes, chunks {}..{} of A-extended (its tail), 30,000 fresh bytes", nx - 9, nx - 2), e2_bytes);
+        for fault in [Fault::XorbDirAfterBlocks(3), Fault::Break(Target::ShardDir, When::BeforeFinalize), Fault::Break(Target::CacheDir, When::BeforeFinalize)] {
+            if let Some(w) = run_history(&mut cx, "failed session, then a file overlapping it partially", &[
+                ok(&[a]),
+                st(&[x, small], fault, Opts::default()),
+                ok(&[&e2]),
+                ok(&[x, small]),
+                ok(&[&e2, b]),
+            ]).await { return Some(w); }
+        }
+
+        // E8. dry runs against the local store (LocalClient has no dry-run mode: the xorbs are written, pinned), then the real thing
+        if let Some(w) = run_history(&mut cx, "dry runs against the local store", &[
+            st(&[a], Fault::None, Opts { dry_run: true, ..Default::default() }),
+            ok(&[a]),
+            st(&[x, small], Fault::None, Opts { dry_run: true, plain_finalize: true, ..Default::default() }),
+            ok(&[x, small, b]),
+        ]).await { return Some(w); }
+
+        // E9. GlobalDedupPolicy::Always against the local store, a second and third machine
+        cx.policy = GlobalDedupPolicy::Always;
+        let w = run_history(&mut cx, "global dedup policy Always, several machines", &[
+            ok(&[a, small]),
+            st(&[x], Fault::None, Opts { fresh_local: true, ..Default::default() }),
+            ok(&[b, a]),
+            st(&[a, c], Fault::None, Opts { fresh_local: true, ..Default::default() }),
+            ok(&[&suffix, x]),
+        ]).await;
+        cx.policy = GlobalDedupPolicy::Never;
+        if w.is_some() { return w; }
+    } else {
+        // E6. further fault points, each: healthy, faulty, retry, further session
+        let seq = Opts::default();
+        let il = Opts { interleave: true, ..Default::default() };
+        let cases: Vec<(Fault, Opts)> = vec![
+            (Fault::Break(Target::SessionDir, When::BeforeNew), seq.clone()),
+            (Fault::Break(Target::CacheDir, When::BeforeNew), seq.clone()),
+            (Fault::Break(Target::DedupDb, When::BeforeNew), seq.clone()),
+            (Fault::Break(Target::ShardDir, When::BeforeNew), seq.clone()),
+            (Fault::Break(Target::CacheDir, When::BeforeFinalize), seq.clone()),
+            (Fault::Break(Target::SessionDir, When::BeforeFinalize), seq.clone()),
+            (Fault::Break(Target::SessionDir, When::AfterBlocks(4)), seq.clone()),
+            (Fault::Break(Target::CacheDir, When::AfterBlocks(2)), seq.clone()),
+            // (A-extended deduplicates its first 6 blocks; its first new xorb is cut during call 7, D's xorbs from call 11 on;
+            // interleaved: D's blocks are the odd calls)
+            (Fault::Blip(Target::XorbDir, When::AfterBlocks(7)), seq.clone()),
+            (Fault::Blip(Target::XorbDir, When::AfterBlocks(8)), seq.clone()),
+            (Fault::Blip(Target::XorbDir, When::AfterBlocks(12)), seq.clone()),
+            (Fault::Blip(Target::XorbDir, When::AfterBlocks(15)), seq.clone()),
+            (Fault::Blip(Target::XorbDir, When::BeforeFinish(1)), seq.clone()),
+            (Fault::Blip(Target::XorbDir, When::AfterBlocks(3)), il.clone()),
+            (Fault::Blip(Target::XorbDir, When::AfterBlocks(11)), il.clone()),
+            (Fault::Blip(Target::XorbDir, When::BeforeFinish(1)), il.clone()),
+            (Fault::Break(Target::XorbDir, When::AfterBlocks(5)), il.clone()),
+            (Fault::Break(Target::XorbDir, When::BeforeFinish(0)), il.clone()),
+            (Fault::Break(Target::XorbDir, When::BeforeFinish(1)), il.clone()),
+            (Fault::Break(Target::ShardDir, When::BeforeFinalize), Opts { interleave: true, plain_finalize: true, ..Default::default() }),
+        ];
+        for (fault, opts) in cases {
+            if let Some(w) = run_history(&mut cx, "healthy upload, faulty upload of an extended file, retry (further fault points)", &[
+                ok(&[a]),
+                st(&[x, d, small], fault, opts.clone()),
+                st(&[x, d, small], Fault::None, opts),
+                ok(&[b, c]),
+            ]).await { return Some(w); }
+        }
+        // E10. two sessions alive at the same time over one shard cache
+        if let Some(w) = live_sessions(&mut cx, &fs).await { return Some(w); }
+    }
+    None
+}
+
+/// Two sessions ALIVE at the same time in one process over the same local directories and store; their calls interleave.
+/// (A session cannot be finalized twice: finalize consumes the Arc.)
+async fn live_sessions(cx: &mut Ctx, fs: &Files) -> Option<String> {
+    for faulty in [false, true] {
+        let root = tempfile::tempdir().unwrap();
+        let (store, local, scratch) = (root.path().join("store"), root.path().join("local"), root.path().join("scratch"));
+        std::fs::create_dir_all(&scratch).unwrap();
+        let block = *deduplication::constants::MAX_XORB_BYTES;
+        // faulty: session 1 uploads D while a truncated object sits at the path of D's middle xorb; session 2 uploads A
+        let (f1, f2) = if faulty { (&fs.d, &fs.a) } else { (&fs.a, &fs.x) };
+        let mut planted = None;
+        if faulty {
+            let r = {
+                let root = tempfile::tempdir().unwrap();
+                run_session(local_store(&root.path().join("store"), &root.path().join("local")), cx.tp.clone(), None, std::slice::from_ref(&fs.d), &Fault::None, false).await
+            };
+            if r.error.is_some() || r.xorbs_of_first_file.len() < 3 { return Some(format!("HARNESS reference session of file 'D' failed or produced fewer than 3 xorbs: {:?}", r.error)); }
+            let h = r.xorbs_of_first_file[r.xorbs_of_first_file.len() / 2];
+            std::fs::create_dir_all(xorb_dir(&store)).unwrap();
+            std::fs::write(xorb_path(&store, &h), [0x58u8; 64]).unwrap();
+            planted = Some(h);
+        }
+        let ctx = format!("config {}; two sessions alive at the same time over the same store and local directories: session 1 cleans '{}' ({} bytes), session 2 '{}' ({}, {} bytes), blocks of one xorb alternating, both finish; session 1 finalizes; session 2 then also cleans '{}' ({}) and finalizes{}", cx.cfg_name, f1.name, f1.data.len(), f2.name, f2.what, f2.data.len(), fs.b.name, fs.b.what, planted.map(|h| format!("; a truncated object sits at the path of xorb {} of '{}'", h.hex(), f1.name)).unwrap_or_default());
+        let mut errors: [Option<String>; 2] = [None, None];
+        let s1 = match FileUploadSession::new(local_store(&store, &local), cx.tp.clone(), None).await { Ok(s) => s, Err(e) => return Some(format!("{ctx}: FileUploadSession::new (session 1) fails: {e}")) };
+        let s2 = match FileUploadSession::new(local_store(&store, &local), cx.tp.clone(), None).await { Ok(s) => s, Err(e) => return Some(format!("{ctx}: FileUploadSession::new (session 2) fails: {e}")) };
+        let mut c1 = Some(s1.start_clean(f1.name.clone()));
+        let mut c2 = Some(s2.start_clean(f2.name.clone()));
+        let (b1, b2): (Vec<&[u8]>, Vec<&[u8]>) = (f1.data.chunks(block).collect(), f2.data.chunks(block).collect());
+        for i in 0..b1.len().max(b2.len()) {
+            if let (Some(b), None) = (b1.get(i), &errors[0]) { if let Err(e) = c1.as_mut().unwrap().add_data(b).await { errors[0] = Some(format!("add_data (block {i}): {e}")); } pause().await; }
+            if let (Some(b), None) = (b2.get(i), &errors[1]) { if let Err(e) = c2.as_mut().unwrap().add_data(b).await { errors[1] = Some(format!("add_data (block {i}): {e}")); } pause().await; }
+        }
+        let mut pointers: Vec<(FileIn, PointerFile, usize)> = vec![];
+        let c1 = c1.take().unwrap();
+        if errors[0].is_none() { match c1.finish().await { Ok((p, _)) => pointers.push((f1.clone(), p, 0)), Err(e) => errors[0] = Some(format!("finish: {e}")) } } else { drop(c1); }
+        let c2 = c2.take().unwrap();
+        if errors[1].is_none() { match c2.finish().await { Ok((p, _)) => pointers.push((f2.clone(), p, 1)), Err(e) => errors[1] = Some(format!("finish: {e}")) } } else { drop(c2); }
+        pause().await;
+        if errors[0].is_none() { if let Err(e) = s1.finalize().await { errors[0] = Some(format!("finalize: {e}")); } } else { drop(s1); }
+        if errors[1].is_none() {
+            let mut c3 = s2.start_clean(fs.b.name.clone());
+            for (i, b) in fs.b.data.chunks(block).enumerate() {
+                if let Err(e) = c3.add_data(b).await { errors[1] = Some(format!("add_data ('{}', block {i}): {e}", fs.b.name)); break; }
+                pause().await;
+            }
+            if errors[1].is_none() { match c3.finish().await { Ok((p, _)) => pointers.push((fs.b.clone(), p, 1)), Err(e) => errors[1] = Some(format!("finish ('{}'): {e}", fs.b.name)) } } else { drop(c3); }
+            if errors[1].is_none() { if let Err(e) = s2.finalize().await { errors[1] = Some(format!("finalize: {e}")); } } else { drop(s2); }
+        } else {
+            drop(s2);
+        }
+        if let Some(h) = planted { let _ = std::fs::remove_file(xorb_path(&store, &h)); }
+        eprintln!("[live sessions] faulty {faulty}: session 1 {:?}, session 2 {:?}", errors[0], errors[1]);
+        let ctx = format!("{ctx} -> session 1: {}, session 2: {}", errors[0].clone().unwrap_or("every call Ok".into()), errors[1].clone().unwrap_or("every call Ok".into()));
+        if !faulty { if let Some(e) = errors.iter().flatten().next() { return Some(format!("{ctx}: a session fails on a healthy store: {e}")); } }
+        // the fault concerns a xorb that only session 1 produces
+        if let Some(e) = &errors[1] { return Some(format!("{ctx}: session 2 fails although nothing it uploads was touched: {e}")); }
+        for (f, p, s) in &pointers {
+            if errors[*s].is_some() { continue; }
+            if let Err(e) = download_check(&store, &scratch, cx.tp.clone(), f, p, &mut cx.n_download).await {
+                return Some(format!("{ctx}: every call of session {} returned Ok, but {e}", s + 1));
+            }
+        }
+        // a later session is not poisoned
+        let o = run_session(local_store(&store, &local), cx.tp.clone(), Some(&store), &[f1.clone(), fs.b.clone(), fs.c.clone()], &Fault::None, false).await;
+        if let Some(e) = o.error { return Some(format!("{ctx}; then a third session of '{}', '{}', 'C' on the repaired store fails: {e}", f1.name, fs.b.name)); }
+        for (f, p) in [f1, &fs.b, &fs.c].into_iter().zip(&o.pointers) {
+            if let Err(e) = download_check(&store, &scratch, cx.tp.clone(), f, p, &mut cx.n_download).await {
+                return Some(format!("{ctx}; then a third session of '{}', '{}', 'C' on the repaired store: every call Ok, but {e}", f1.name, fs.b.name));
+            }
+        }
+    }
+    None
+}
+
+// ---------------------------------------------------------------------------------------------------------------------------------
+// coverage review: HTTP store mirrored to disk (downloads can be checked), upload concurrency limits
+// ---------------------------------------------------------------------------------------------------------------------------------
+
+#[derive(Clone, Default, Debug)]
+struct Script {
+    reject_xorb: Option<usize>,
+    hold_xorb: Option<usize>,
+    close_xorb_once: Option<usize>,
+    reject_shard: Option<usize>,
+    delay_ms: u64,
+    gate: usize,
+    not_inserted: bool,
+    shard_exists: bool,
+    serve_chunks: bool,
+}
+impl Script {
+    fn text(&self) -> String {
+        let mut v = vec![];
+        if let Some(k) = self.reject_xorb { v.push(format!("rejects xorb upload #{k} with 403")); }
+        if let Some(k) = self.hold_xorb { v.push(format!("answers xorb upload #{k} only 300 ms after the rejection was delivered")); }
+        if let Some(k) = self.close_xorb_once { v.push(format!("closes the connection without an answer when xorb upload #{k} arrives (once)")); }
+        if let Some(k) = self.reject_shard { v.push(format!("rejects shard upload #{k} with 403")); }
+        if self.delay_ms > 0 { v.push(format!("answers every xorb upload after {} ms", self.delay_ms)); }
+        if self.gate > 0 { v.push(format!("answers no xorb upload before {} are in flight at the same time", self.gate)); }
+        if self.not_inserted { v.push("answers every xorb upload with was_inserted:false".into()); }
+        if self.shard_exists { v.push("answers every shard upload with result 0 (exists)".into()); }
+        if self.serve_chunks { v.push("answers chunk queries with the first accepted shard containing the chunk".into()); }
+        if v.is_empty() { "accepts everything".into() } else { v.join(", ") }
+    }
+    fn apply(&self, st: &mut HttpState) {
+        st.reject_index = self.reject_xorb;
+        st.hold_index = self.hold_xorb;
+        st.xorb_close_once = self.close_xorb_once;
+        st.shard_reject = self.reject_shard;
+        st.delay_ms = self.delay_ms;
+        st.gate = self.gate;
+        st.xorb_not_inserted = self.not_inserted;
+        st.shard_exists = self.shard_exists;
+        st.serve_chunks = self.serve_chunks;
+        st.rejection_delivered = false;
+    }
+}
+
+fn start_mirrored_store(mirror: &Path, script: &Script) -> (Arc<HttpStore>, String) {
+    let (st, url) = start_http_store();
+    std::fs::create_dir_all(mirror.join("xorbs")).unwrap();
+    std::fs::create_dir_all(mirror.join("shards")).unwrap();
+    { let mut s = st.state.lock().unwrap(); s.mirror = Some(mirror.to_path_buf()); script.apply(&mut s); }
+    (st, url)
+}
+
+/// A session (one add_data call per file, immediate finalize) against the HTTP store: the store's own record decides what must
+/// have happened.  Returns the outcome for further use.
+async fn http_checked_session(cx: &mut Ctx, what: &str, st: &Arc<HttpStore>, url: &str, mirror: &Path, local: &Path, scratch: &Path, files: &[FileIn], opts: &Opts, policy: GlobalDedupPolicy) -> Result<Outcome, String> {
+    let (x0, s0, bytes0, q0, closed0) = { let s = st.state.lock().unwrap(); (s.xorb_posts.len(), s.shard_posts.len(), s.shard_bytes_accepted, s.chunk_queries, s.closed_without_answer) };
+    let o = run_session_opts(config_p(Endpoint::Server(url.to_string()), local, policy), cx.tp.clone(), None, files, &Fault::None, opts).await;
+    let (xorbs, shards, shard_bytes, queries, closed, other, max_in_flight) = { let s = st.state.lock().unwrap(); (s.xorb_posts[x0..].to_vec(), s.shard_posts[s0..].to_vec(), s.shard_bytes_accepted - bytes0, s.chunk_queries - q0, s.closed_without_answer - closed0, s.other.clone(), s.max_in_flight) };
+    let files_text: Vec<String> = files.iter().map(|f| format!("'{}' ({}, {} bytes)", f.name, f.what, f.data.len())).collect();
+    let ctx = format!("{what}: session of files {}{} -> {}; the store received {} xorb upload(s) and {} shard upload(s)", files_text.join(", "), opts_text(opts), o.error.clone().map(|e| format!("error from {e}")).unwrap_or("every call Ok".into()), xorbs.len(), shards.len());
+    eprintln!("[http] {ctx}; at most {max_in_flight} xorb uploads in flight, {queries} chunk queries");
+    // closed connections are retried by the client: only an upload that was never accepted afterwards counts as failed
+    let failed_xorbs: Vec<&String> = xorbs.iter().filter(|p| !p.1 && !xorbs.iter().any(|q| q.1 && q.0 == p.0)).map(|p| &p.0).collect();
+    let failed_shards: Vec<&String> = shards.iter().filter(|p| !p.1).map(|p| &p.0).collect();
+    if !other.is_empty() { return Err(format!("{ctx}: unexpected requests {other:?}")); }
+    if policy == GlobalDedupPolicy::Never && queries > 0 { return Err(format!("{ctx}: {queries} global dedup chunk queries were sent although the policy is Never")); }
+    if let Some(x) = failed_xorbs.first() {
+        if o.error.is_none() { return Err(format!("{ctx}: the upload of xorb {x} failed, but every call returned Ok")); }
+        if !shards.is_empty() { return Err(format!("{ctx}: {} shard(s) were handed to the store although the upload of xorb {x} had failed", shards.len())); }
+    }
+    if let Some(x) = failed_shards.first() {
+        if o.error.is_none() { return Err(format!("{ctx}: the store rejected shard {x}, but every call returned Ok")); }
+    }
+    match &o.error {
+        Some(e) => {
+            if failed_xorbs.is_empty() && failed_shards.is_empty() && closed == 0 { return Err(format!("{ctx}: the store accepted everything it was sent, yet the session fails: {e}")); }
+        },
+        None => {
+            metrics_check(files, &o).map_err(|e| format!("{ctx}: {e}"))?;
+            global_counters_check(files, &o, policy).map_err(|e| format!("{ctx}: {e}"))?;
+            let reported = o.session_metrics.as_ref().map(|m| m.shard_bytes_uploaded as u64).unwrap_or(0);
+            if reported != shard_bytes && !opts.dry_run { return Err(format!("{ctx}: finalize() reports shard_bytes_uploaded = {reported} but the store accepted {} shard(s) of {shard_bytes} bytes in total", shards.len())); }
+            for (f, p) in files.iter().zip(&o.pointers) {
+                download_check(mirror, scratch, cx.tp.clone(), f, p, &mut cx.n_download).await.map_err(|e| format!("{ctx}: every call returned Ok, but (reading the objects the store accepted) {e}"))?;
+            }
+        },
+    }
+    Ok(o)
+}
+
+/// scripted session, then (script cleared) a retry over the same local directories and a third session
+async fn http_fault_retry(cx: &mut Ctx, root: &Path, tag: &str, files: &[FileIn], script: Script, third: &[FileIn]) -> Option<String> {
+    http_fault_retry_fed(cx, root, tag, files, script, third, false).await
+}
+/// paused: blocks of one xorb with 25 ms pauses, one file after the other (a rejection has been delivered when the next call runs)
+async fn http_fault_retry_fed(cx: &mut Ctx, root: &Path, tag: &str, files: &[FileIn], script: Script, third: &[FileIn], paused: bool) -> Option<String> {
+    let (mirror, local, scratch) = (root.join(format!("{tag}-mirror")), root.join(format!("{tag}-local")), root.join(format!("{tag}-scratch")));
+    std::fs::create_dir_all(&scratch).unwrap();
+    let (st, url) = start_mirrored_store(&mirror, &script);
+    let one = Opts { one_call: !paused, plain_finalize: true, ..Default::default() };
+    let what = format!("config {}; HTTP store that {}", cx.cfg_name, script.text());
+    let first = match http_checked_session(cx, &what, &st, &url, &mirror, &local, &scratch, files, &one, GlobalDedupPolicy::Never).await { Ok(o) => o, Err(w) => return Some(w) };
+    let expected_failure = script.reject_xorb.is_some() || script.reject_shard.is_some();
+    if expected_failure && first.error.is_none() {
+        let s = st.state.lock().unwrap();
+        if s.xorb_posts.iter().all(|p| p.1) && s.shard_posts.iter().all(|p| p.1) { return Some(format!("HARNESS {what}: the scripted rejection never happened ({} xorb / {} shard uploads arrived)", s.xorb_posts.len(), s.shard_posts.len())); }
+    }
+    Script::default().apply(&mut st.state.lock().unwrap());
+    let what = format!("{what} in session 1 ({}) and accepts everything afterwards; same local directories", first.error.clone().map(|e| format!("error from {e}")).unwrap_or("every call Ok".into()));
+    let with_info = Opts { one_call: true, ..Default::default() };
+    for (k, set) in [files, third, files].into_iter().enumerate() {
+        if let Err(w) = http_checked_session(cx, &format!("{what}; session {}", k + 2), &st, &url, &mirror, &local, &scratch, set, &with_info, GlobalDedupPolicy::Never).await { return Some(w); }
+    }
+    None
+}
+
+async fn http_mirror_histories(tp: Arc<ThreadPool>, cfg_name: String, seed: u64) -> Option<String> {
+    let mut cx = Ctx { tp: tp.clone(), cfg_name: cfg_name.clone(), n_download: 0, policy: GlobalDedupPolicy::Never };
+    let fs = standard_files(seed);
+    let root_dir = tempfile::tempdir().unwrap();
+    let root = root_dir.path().to_path_buf();
+    let files = vec![fs.d.clone(), fs.small.clone(), fs.x.clone()];
+    let third = vec![fs.b.clone(), fs.c.clone(), fs.empty.clone()];
+
+    // the connection closed without an answer: the client retries after >= 3 s; runs beside everything else
+    let closer = {
+        let (tp, cfg_name, root, files, third) = (tp.clone(), cfg_name.clone(), root.clone(), files.clone(), third.clone());
+        tokio::spawn(async move {
+            let mut cx = Ctx { tp, cfg_name, n_download: 0, policy: GlobalDedupPolicy::Never };
+            let t = std::time::Instant::now();
+            let r = http_fault_retry(&mut cx, &root, "closed", &files, Script { close_xorb_once: Some(1), ..Default::default() }, &third).await;
+            eprintln!("[http] closed-connection scenario took {:?}", t.elapsed());
+            r
+        })
+    };
+
+    // M1. reference: healthy store; then the same content again: no xorb may be sent
+    let (n_x, n_s) = {
+        let (mirror, local, scratch) = (root.join("m1-mirror"), root.join("m1-local"), root.join("m1-scratch"));
+        std::fs::create_dir_all(&scratch).unwrap();
+        let (st, url) = start_mirrored_store(&mirror, &Script::default());
+        let what = format!("config {}; HTTP store that accepts everything", cx.cfg_name);
+        let one = Opts { one_call: true, ..Default::default() };
+        if let Err(w) = http_checked_session(&mut cx, &what, &st, &url, &mirror, &local, &scratch, &files, &one, GlobalDedupPolicy::Never).await { return Some(w); }
+        let (n_x, n_s) = { let s = st.state.lock().unwrap(); (s.xorb_posts.len(), s.shard_posts.len()) };
+        let again = vec![fs.d.clone(), fs.b.clone(), fs.x.clone(), fs.small.clone()];
+        if let Err(w) = http_checked_session(&mut cx, &format!("{what}; second session over the same local directories"), &st, &url, &mirror, &local, &scratch, &again, &one, GlobalDedupPolicy::Never).await { return Some(w); }
+        let n_x2 = st.state.lock().unwrap().xorb_posts.len();
+        if n_x2 != n_x {
+            return Some(format!("{what}: session 1 uploaded 'D', 'small', 'A-extended' ({n_x} xorbs); session 2 over the same local directories uploads 'D', 'A-prefix', 'A-extended', 'small' - every chunk of them was stored by session 1 - and sends {} more xorb(s) to the store", n_x2 - n_x));
+        }
+        (n_x, n_s)
+    };
+    if n_x < 4 || n_s < 3 { return Some(format!("HARNESS the reference session sent {n_x} xorbs and {n_s} shards (expected several of each)")); }
+
+    // M2. answers that are no failures
+    for (tag, script) in [
+        ("notins", Script { not_inserted: true, ..Default::default() }),
+        ("exists", Script { shard_exists: true, ..Default::default() }),
+        ("slow", Script { delay_ms: 150, ..Default::default() }),
+    ] {
+        if let Some(w) = http_fault_retry(&mut cx, &root, tag, &files, script, &third).await { return Some(w); }
+    }
+    // M3. a shard upload is rejected after every xorb was accepted: first / second / last shard
+    for k in [0, 1, n_s - 1] {
+        if let Some(w) = http_fault_retry(&mut cx, &root, &format!("shard{k}"), &files, Script { reject_shard: Some(k), ..Default::default() }, &third).await { return Some(w); }
+    }
+    // M4. a xorb upload is rejected: first / middle / last, then retry over the same local directories
+    for (k, hold) in [(0, None), (n_x / 2, None), (n_x - 1, None), (n_x - 1, Some(0))] {
+        if let Some(w) = http_fault_retry(&mut cx, &root, &format!("xorb{k}-{hold:?}"), &files, Script { reject_xorb: Some(k), hold_xorb: hold, ..Default::default() }, &third).await { return Some(w); }
+    }
+
+    // M5. many small files, fed with pauses: the upload of a xorb aggregated over several files is rejected (the session's
+    // aggregated data cut by a finish(), either side / by finalize)
+    {
+        let (smalls, tinies) = small_files(seed);
+        let mut set = smalls.clone();
+        set.extend(tinies.iter().cloned());
+        let n_small = {
+            let (mirror, local, scratch) = (root.join("s-mirror"), root.join("s-local"), root.join("s-scratch"));
+            std::fs::create_dir_all(&scratch).unwrap();
+            let (st, url) = start_mirrored_store(&mirror, &Script::default());
+            let what = format!("config {}; HTTP store that accepts everything", cx.cfg_name);
+            if let Err(w) = http_checked_session(&mut cx, &what, &st, &url, &mirror, &local, &scratch, &set, &Opts::default(), GlobalDedupPolicy::Never).await { return Some(w); }
+            let n = st.state.lock().unwrap().xorb_posts.len();
+            n
+        };
+        if n_small < 4 { return Some(format!("HARNESS the small files made only {n_small} xorbs")); }
+        for k in [0, 1, n_small / 2, n_small - 2, n_small - 1] {
+            if let Some(w) = http_fault_retry_fed(&mut cx, &root, &format!("small{k}"), &set, Script { reject_xorb: Some(k), ..Default::default() }, &third, true).await { return Some(w); }
+        }
+        // and the multi-xorb files fed with pauses
+        for k in [1, n_x / 2] {
+            if let Some(w) = http_fault_retry_fed(&mut cx, &root, &format!("paused{k}"), &files, Script { reject_xorb: Some(k), ..Default::default() }, &third, true).await { return Some(w); }
+        }
+    }
+
+    // M6. global dedup through the store's chunk index: machine 1 uploads A, machine 2 (fresh local directories) A-extended and a
+    // prefix of A, machine 3 with policy Never
+    {
+        let (mirror, scratch) = (root.join("g-mirror"), root.join("g-scratch"));
+        std::fs::create_dir_all(&scratch).unwrap();
+        let script = Script { serve_chunks: true, ..Default::default() };
+        let (st, url) = start_mirrored_store(&mirror, &script);
+        let what = format!("config {}; HTTP store that {}; global dedup policy Always", cx.cfg_name, script.text());
+        let one = Opts { one_call: true, ..Default::default() };
+        if let Err(w) = http_checked_session(&mut cx, &format!("{what}; machine 1"), &st, &url, &mirror, &root.join("g-local-1"), &scratch, &[fs.a.clone(), fs.small.clone()], &one, GlobalDedupPolicy::Always).await { return Some(w); }
+        let o = match http_checked_session(&mut cx, &format!("{what}; machine 1 has uploaded 'A' and 'small'; machine 2 (fresh local directories)"), &st, &url, &mirror, &root.join("g-local-2"), &scratch, &[fs.x.clone(), fs.b.clone(), fs.c.clone()], &one, GlobalDedupPolicy::Always).await { Ok(o) => o, Err(w) => return Some(w) };
+        let (q, h) = { let s = st.state.lock().unwrap(); (s.chunk_queries, s.chunk_hits) };
+        eprintln!("[http] global dedup: {q} chunk queries, {h} answered with a shard; machine 2 metrics {:?}", o.session_metrics);
+        if let Err(w) = http_checked_session(&mut cx, &format!("{what} (machines 1 and 2 have uploaded 'A', 'small', 'A-extended', 'A-prefix', 'C'); machine 3 with policy Never"), &st, &url, &mirror, &root.join("g-local-3"), &scratch, &[fs.a.clone(), fs.c.clone()], &one, GlobalDedupPolicy::Never).await { return Some(w); }
+        // machine 2 again: everything it uploaded or learnt is known now
+        if let Err(w) = http_checked_session(&mut cx, &format!("{what}; machine 2, second session"), &st, &url, &mirror, &root.join("g-local-2"), &scratch, &[fs.x.clone(), fs.a.clone()], &one, GlobalDedupPolicy::Always).await { return Some(w); }
+    }
+
+    // M7. the public entry point data_client::upload_async (default_config, files read from disk, up to 8 cleaners at a time, policy
+    // Always): files with overlapping content cleaned concurrently
+    if let Some(w) = upload_async_histories(&mut cx, &fs, &root, n_x).await { return Some(w); }
+
+    match closer.await {
+        Ok(None) => None,
+        Ok(Some(w)) => Some(w),
+        Err(e) => Some(format!("config {}: a session against an HTTP store that closes one connection panicked: {e}", cx.cfg_name)),
+    }
+}
+
+async fn upload_async_histories(cx: &mut Ctx, fs: &Files, root: &Path, _n_x: usize) -> Option<String> {
+    use data::data_client::upload_async;
+    unsafe { std::env::set_var("HF_XET_CACHE", root.join("xet-cache")); }
+    let src = root.join("ua-src");
+    std::fs::create_dir_all(&src).unwrap();
+    let ends = &fs.ends;
+    let mut e_bytes = random(977, 30_000);
+    e_bytes.extend_from_slice(&fs.a_bytes[ends[3]..ends[12]]);
+    e_bytes.extend(random(978, 30_000));
+    let set = vec![fs.d.clone(), fs.x.clone(), fs.c.clone(), fs.small.clone(), fs.a.clone(), fs.b.clone(), mkfile("edited", "30,000 fresh bytes, chunks 4..12 of A, 30,000 fresh bytes", e_bytes), fs.empty.clone(), mkfile("A-copy", "same bytes as A", fs.a_bytes.clone())];
+    let paths: Vec<String> = set.iter().map(|f| { let p = src.join(&f.name); std::fs::write(&p, &f.data[..]).unwrap(); p.to_string_lossy().to_string() }).collect();
+    let files_text: Vec<String> = set.iter().map(|f| format!("'{}' ({}, {} bytes)", f.name, f.what, f.data.len())).collect();
+    for (round, script) in [Script::default(), Script { reject_xorb: Some(3), ..Default::default() }, Script { reject_shard: Some(1), ..Default::default() }, Script { delay_ms: 30, ..Default::default() }].into_iter().enumerate() {
+        let (mirror, scratch) = (root.join(format!("ua-mirror-{round}")), root.join(format!("ua-scratch-{round}")));
+        std::fs::create_dir_all(&scratch).unwrap();
+        let (st, url) = start_mirrored_store(&mirror, &script);
+        let r = upload_async(cx.tp.clone(), paths.clone(), Some(url.clone()), None, None, None).await;
+        let (ctx, failed, xorb_failed, n_shards) = {
+            let s = st.state.lock().unwrap();
+            let ctx = format!("config {}; data_client::upload_async (cache root HF_XET_CACHE, files on disk: {}) against an HTTP store that {} -> {}; the store received {} xorb and {} shard uploads", cx.cfg_name, files_text.join(", "), script.text(), r.as_ref().map(|_| "Ok".to_string()).unwrap_or_else(|e| format!("error {e}")), s.xorb_posts.len(), s.shard_posts.len());
+            eprintln!("[http] {ctx}; {} chunk queries", s.chunk_queries);
+            (ctx, s.xorb_posts.iter().any(|p| !p.1) || s.shard_posts.iter().any(|p| !p.1), s.xorb_posts.iter().any(|p| !p.1), s.shard_posts.len())
+        };
+        match r {
+            Ok(pointers) => {
+                if failed { return Some(format!("{ctx}: an upload was rejected, but upload_async returned Ok")); }
+                if pointers.len() != set.len() { return Some(format!("{ctx}: {} pointer files returned for {} files", pointers.len(), set.len())); }
+                for (f, path) in set.iter().zip(&paths) {
+                    let Some(p) = pointers.iter().find(|p| p.path() == path) else { return Some(format!("{ctx}: no pointer file returned for '{}'", f.name)) };
+                    if let Err(e) = download_check(&mirror, &scratch, cx.tp.clone(), f, p, &mut cx.n_download).await {
+                        return Some(format!("{ctx}: upload_async returned Ok, but (reading the objects the store accepted) {e}"));
+                    }
+                }
+            },
+            Err(e) => {
+                if !failed { return Some(format!("{ctx}: the store accepted everything it was sent, yet upload_async fails: {e}")); }
+                if xorb_failed && n_shards > 0 { return Some(format!("{ctx}: {n_shards} shard(s) were handed to the store although a xorb upload had failed")); }
+            },
+        }
+    }
+    None
+}
+
+/// HF_XET_MAX_CONCURRENT_UPLOADS = 1 (strictly serialized uploads) / 64 (everything in flight at once)
+async fn upload_limit_histories(tp: Arc<ThreadPool>, cfg_name: String, seed: u64, serial: bool) -> Option<String> {
+    let mut cx = Ctx { tp, cfg_name, n_download: 0, policy: GlobalDedupPolicy::Never };
+    let fs = standard_files(seed);
+    let root_dir = tempfile::tempdir().unwrap();
+    let root = root_dir.path().to_path_buf();
+    let files = vec![fs.d.clone(), fs.small.clone(), fs.x.clone()];
+    let third = vec![fs.b.clone(), fs.c.clone(), fs.empty.clone()];
+    // is the limit in force?  (the store counts the xorb uploads it is processing at the same time)
+    {
+        let (mirror, local, scratch) = (root.join("p-mirror"), root.join("p-local"), root.join("p-scratch"));
+        std::fs::create_dir_all(&scratch).unwrap();
+        let script = if serial { Script { delay_ms: 30, ..Default::default() } } else { Script { gate: 12, ..Default::default() } };
+        let (st, url) = start_mirrored_store(&mirror, &script);
+        let what = format!("config {}; HTTP store that {}", cx.cfg_name, script.text());
+        if let Err(w) = http_checked_session(&mut cx, &what, &st, &url, &mirror, &local, &scratch, &files, &Opts { one_call: true, ..Default::default() }, GlobalDedupPolicy::Never).await { return Some(w); }
+        let (m, n) = { let s = st.state.lock().unwrap(); (s.max_in_flight, s.xorb_posts.len()) };
+        if serial && m != 1 { return Some(format!("HARNESS HF_XET_MAX_CONCURRENT_UPLOADS=1 is not in force: {m} xorb uploads were in flight at the same time")); }
+        if !serial && m < 12 { return Some(format!("HARNESS HF_XET_MAX_CONCURRENT_UPLOADS=64 is not in force: at most {m} of {n} xorb uploads were in flight at the same time")); }
+    }
+    let n_x = 6;
+    let scripts: Vec<Script> = if serial {
+        vec![Script { reject_xorb: Some(0), ..Default::default() }, Script { reject_xorb: Some(n_x), ..Default::default() }, Script { reject_xorb: Some(n_x), delay_ms: 20, ..Default::default() }, Script { reject_shard: Some(0), ..Default::default() }]
+    } else {
+        vec![Script { reject_xorb: Some(0), delay_ms: 100, ..Default::default() }, Script { reject_xorb: Some(n_x), hold_xorb: Some(0), ..Default::default() }, Script { reject_xorb: Some(n_x), hold_xorb: Some(n_x + 1), ..Default::default() }, Script { reject_shard: Some(0), delay_ms: 100, ..Default::default() }]
+    };
+    for (i, script) in scripts.into_iter().enumerate() {
+        if let Some(w) = http_fault_retry(&mut cx, &root, &format!("u{i}"), &files, script, &third).await { return Some(w); }
+    }
+    // local store: healthy history, a fault history, small files
+    let (a, small, b, c, x, d) = (&fs.a, &fs.small, &fs.b, &fs.c, &fs.x, &fs.d);
+    let quick = Opts { one_call: true, ..Default::default() };
+    if let Some(w) = run_history(&mut cx, "upload limit: dedup structures", &[
+        ok(&[a, small]),
+        st(&[b, c, a, x], Fault::None, quick.clone()),
+        st(&[d, b], Fault::None, Opts { interleave: true, ..Default::default() }),
+    ]).await { return Some(w); }
+    for fault in [Fault::XorbDirAfterBlocks(3), Fault::Break(Target::XorbDir, When::BeforeNew)] {
+        for opts in [Opts::default(), quick.clone()] {
+            if opts.one_call && fault == Fault::XorbDirAfterBlocks(3) { continue; }
+            if let Some(w) = run_history(&mut cx, "upload limit: healthy upload, faulty upload of an extended file, retry", &[
+                ok(&[a]),
+                st(&[x, small], fault.clone(), opts.clone()),
+                st(&[x, small], Fault::None, opts),
+                ok(&[b, c]),
+            ]).await { return Some(w); }
+        }
+    }
+    None
+}
+
 /// Many cleaners running concurrently in one session while the session shard is flushed to disk again and again (minimum shard
 /// size 1 kB): every file of a session that reports success must be reconstructible.
 async fn concurrent_histories(tp: Arc<ThreadPool>, cfg_name: String, seed: u64) -> Option<String> {
-    let mut cx = Ctx { tp, cfg_name, n_download: 0 };
+    let mut cx = Ctx { tp, cfg_name, n_download: 0, policy: GlobalDedupPolicy::Never };
     let xorb = *deduplication::constants::MAX_XORB_BYTES;
     for round in 0..4u64 {
         let root = tempfile::tempdir().unwrap();
@@ -706,7 +1652,7 @@ async fn concurrent_histories(tp: Arc<ThreadPool>, cfg_name: String, seed: u64) 
 }
 
 fn child(idx: usize) -> i32 {
-    let (cfg_name, env) = CONFIGS[idx];
+    let (cfg_name, env, kind) = CONFIGS[idx];
     let got = [
         ("HF_XET_TARGET_CHUNK_SIZE", *deduplication::constants::TARGET_CHUNK_SIZE as u64),
         ("HF_XET_MAX_XORB_BYTES", *deduplication::constants::MAX_XORB_BYTES as u64),
@@ -724,12 +1670,16 @@ fn child(idx: usize) -> i32 {
     }
     let seed = std::env::var("VERIF_SEED").ok().and_then(|s| s.parse().ok()).unwrap_or(0u64);
     let tp = Arc::new(ThreadPool::new().expect("runtime"));
-    let r = if idx == 2 {
-        tp.external_run_async_task(concurrent_histories(tp.clone(), cfg_name.to_string(), seed))
-    } else {
-        tp.external_run_async_task(run_all(tp.clone(), cfg_name.to_string(), seed, idx == 0))
+    let name = cfg_name.to_string();
+    let r = match kind {
+        Kind::Concurrent => tp.external_run_async_task(concurrent_histories(tp.clone(), name, seed)),
+        Kind::Full | Kind::Reduced => tp.external_run_async_task(run_all(tp.clone(), name, seed, kind == Kind::Full)),
+        Kind::Extra(part) => tp.external_run_async_task(extra_histories(tp.clone(), name, seed, part)),
+        Kind::Http => tp.external_run_async_task(http_mirror_histories(tp.clone(), name, seed)),
+        Kind::Serial | Kind::Wide => tp.external_run_async_task(upload_limit_histories(tp.clone(), name, seed, kind == Kind::Serial)),
     };
     match r {
+        Ok(Some(w)) if w.starts_with("HARNESS") => { println!("infrastructure: config {cfg_name}: {w}"); 2 },
         Ok(None) => { println!("no violation found"); 0 },
         Ok(Some(w)) => { println!("WITNESS {w}"); 1 },
         Err(e) => { println!("WITNESS config {cfg_name}: a session or download panicked / was aborted: {e}"); 1 },
@@ -742,25 +1692,30 @@ fn main() {
         std::process::exit(child(args[2].parse().unwrap()));
     }
     let exe = std::env::current_exe().unwrap();
-    let handles: Vec<_> = (0..CONFIGS.len())
+    // C16_ONLY=3,5 runs only those children; C16_VERBOSE=1 copies the children's stderr (debugging aids)
+    let only: Option<Vec<usize>> = std::env::var("C16_ONLY").ok().map(|s| s.split(',').filter_map(|t| t.trim().parse().ok()).collect());
+    let verbose = std::env::var("C16_VERBOSE").is_ok();
+    let selected: Vec<usize> = (0..CONFIGS.len()).filter(|i| only.as_ref().map(|o| o.contains(i)).unwrap_or(true)).collect();
+    let handles: Vec<_> = selected.iter().cloned()
         .map(|i| {
             let mut cmd = Command::new(&exe);
             cmd.arg("--child").arg(i.to_string()).stdout(Stdio::piped()).stderr(Stdio::piped());
-            for v in ["HF_XET_MAX_XORB_BYTES", "HF_XET_MAX_XORB_CHUNKS", "HF_XET_TARGET_CHUNK_SIZE", "HF_XET_INGESTION_BLOCK_SIZE", "HF_XET_MDB_SHARD_MIN_TARGET_SIZE"] {
+            for v in ["HF_XET_MAX_XORB_BYTES", "HF_XET_MAX_XORB_CHUNKS", "HF_XET_TARGET_CHUNK_SIZE", "HF_XET_INGESTION_BLOCK_SIZE", "HF_XET_MDB_SHARD_MIN_TARGET_SIZE", "HF_XET_MAX_CONCURRENT_UPLOADS", "HF_XET_HIGH_PERFORMANCE", "HF_XET_CACHE", "HF_HOME"] {
                 cmd.env_remove(v);
             }
             for (k, v) in BASE_ENV.iter().chain(CONFIGS[i].1.iter()) {
                 cmd.env(k, v);
             }
             let c = cmd.spawn().expect("spawn child");
-            std::thread::spawn(move || c.wait_with_output())
+            std::thread::spawn(move || { let t = std::time::Instant::now(); let r = c.wait_with_output(); eprintln!("[c16_session] child {i} ({}) took {:.1} s", CONFIGS[i].0.split(':').next().unwrap_or(""), t.elapsed().as_secs_f32()); r })
         })
         .collect();
     let mut verdict = 0;
     let mut lines = vec![];
-    for (i, h) in handles.into_iter().enumerate() {
+    for (i, h) in selected.iter().cloned().zip(handles) {
         let out = h.join().unwrap().expect("child output");
         let stdout = String::from_utf8_lossy(&out.stdout).to_string();
+        if verbose { eprintln!("----- child {i} -----\n{}", String::from_utf8_lossy(&out.stderr)); }
         match out.status.code() {
             Some(0) => {},
             Some(1) => { verdict = verdict.max(1); lines.extend(stdout.lines().filter(|l| l.starts_with("WITNESS")).map(|s| s.to_string())); },
